@@ -183,8 +183,9 @@ DEV_SITES = {"DEV_GcReadsLabelValuesUnlocked": {"Store.Gc", "Metric.RemoveOldest
 def atomic_stage(ctx, binary):
     ncases = 6 if ctx.thorough else 2
     incs = 60 if ctx.thorough else 25
+    exports = 20 if ctx.thorough else 8        # per exporter and trace
     gs = [["vm", "vm2", "prom", "varz", "json", "gc", "reload"], ["vm", "vm2", "prom", "json"]]
-    cases = [{"group": gs[k % len(gs)], "incs": incs} for k in range(ncases)]
+    cases = [{"group": gs[k % len(gs)], "incs": incs, "iters": exports} for k in range(ncases)]
     # two VMs hammering one datum: only totals are logged (no increment may be lost)
     cases += [{"group": ["vm", "vm2"], "incs": 60000 if ctx.thorough else 15000, "hammer": True}] * (3 if ctx.thorough else 1)
     ncases = len(cases)
@@ -202,10 +203,12 @@ def atomic_stage(ctx, binary):
         raise vlib.InfraError("atomicity harness produced %d of %d traces" % (len(traces), ncases))
     out = validate_traces(ctx, traces, "atomic")
     # self-test of the trace specification: a lost increment and a never-existing exported value must be rejected
-    t = [dict(e) for e in traces[0]]   # (the first trace is an event-by-event one)
-    bad1 = [dict(e, v=e["v"] - 1) if e["ev"] == "final" else e for e in t]
+    # the lost increment on the shortest log (a hammer trace: bulk, bulk, final); the impossible export on the first log
+    t = [dict(e) for e in traces[0]]
+    h = [dict(e) for e in traces[-1]]
+    bad1 = [dict(e, v=e["v"] - 1) if e["ev"] == "final" else e for e in h]
     k = next((j for j, e in enumerate(t) if e["ev"] == "exp.value"), None)
-    bad2 = [dict(e, v=e["v"] + 2 * incs + 5) if j == k else e for j, e in enumerate(t)] if k is not None else None
+    bad2 = [dict(e, v=e["v"] + 2 * incs + 5) if j == k else e for j, e in enumerate(t)][: k + 2] if k is not None else None
     for name, b in (("lost increment", bad1), ("impossible export", bad2)):
         if b is None:
             continue
